@@ -107,8 +107,9 @@ Proof.
       split; [|exact ND]. intros b0; split.
       * intros [H|[]]. inversion H; subst. split; [congruence|reflexivity].
       * intros [_ H]. subst. left; reflexivity.
-  - cbn [fst snd vals idle]. apply (TRIV s ND).
-  - destruct (idle s && res_err s); cbn [fst snd vals idle]; apply (TRIV s ND).
+  - destruct (disposed s); cbn [fst snd vals idle]; apply (TRIV s ND).
+  - destruct (negb (woken s)); [cbn [fst snd]; apply (TRIV s ND)|].
+    destruct (idle s && res_err s); cbn [fst snd vals idle]; apply (TRIV s ND).
 Qed.
 
 (* ---- Exists / Removed alternate, starting with Exists ---- *)
@@ -131,8 +132,8 @@ Proof.
   - set (s1 := if negb (res_err s) && e then _ else s).
     assert (vals s1 = vals s) as V1 by (unfold s1; destruct (negb (res_err s) && e); auto).
     destruct (Bool.eqb b (idle s1)); cbn [fst snd enq vals er_proj app]; rewrite V1; auto.
-  - cbn. auto.
-  - destruct (idle s && res_err s); cbn; auto.
+  - destruct (disposed s); cbn; auto.
+  - destruct (negb (woken s)); [cbn; auto|]. destruct (idle s && res_err s); cbn; auto.
 Qed.
 
 Lemma step_nodup s a : NoDup (vals s) -> fresh_add s a -> NoDup (vals (fst (step s a))).
@@ -189,8 +190,8 @@ Proof.
     apply eqb_false_iff in E. rewrite I1 in E. intros H.
     assert (b = negb (idle s)) as Eb by (destruct b, (idle s); cbn; congruence).
     split; [exact Eb|rewrite <- Eb; exact H].
-  - cbn. auto.
-  - destruct (idle s && res_err s); cbn; auto.
+  - destruct (disposed s); cbn; auto.
+  - destruct (negb (woken s)); [cbn; auto|]. destruct (idle s && res_err s); cbn; auto.
 Qed.
 
 Lemma run_idle_alt l : forall s, alt (negb (idle s)) (idle_proj (snd (run s l))).
@@ -226,8 +227,9 @@ Proof.
     destruct (Bool.eqb b (idle s1)); cbn [fst snd enq sent queue result]; rewrite ?A, ?B.
     + exists (queue s). rewrite app_nil_r. auto.
     + eexists; split; [reflexivity|auto].
-  - cbn. exists (queue s). rewrite app_nil_r. auto.
-  - destruct (idle s && res_err s); cbn [fst snd sent queue result].
+  - destruct (disposed s); cbn; exists (queue s); rewrite app_nil_r; auto.
+  - destruct (negb (woken s)); [cbn; exists (queue s); rewrite app_nil_r; auto|].
+    destruct (idle s && res_err s); cbn [fst snd sent queue result].
     + exists (queue s). rewrite app_nil_r. split; [reflexivity|]. intros H; contradiction.
     + exists []. rewrite !app_nil_r. auto.
 Qed.
@@ -257,39 +259,50 @@ Theorem sent_is_prefix_of_reports l :
                (result (fst (run init l)) <> 1%nat -> tail = queue (fst (run init l))).
 Proof. destruct (run_sent l init) as [t [H T]]. exists t. cbn in H. auto. Qed.
 
-(* the queue is empty once the call has returned, and right after a Drain *)
-Lemma step_queue_inv s a :
-  (result s <> 0%nat -> queue s = []) ->
-  (result (fst (step s a)) <> 0%nat -> queue (fst (step s a)) = []).
+(* invariant of the wake-up protocol: whatever is queued (or a pending dispose) has been
+   broadcast since the send loop last took its wait channel; once the call has returned the
+   queue is empty *)
+Definition wake_inv (s : st) : Prop :=
+  (result s = 0%nat -> queue s <> [] -> woken s = true) /\
+  (result s = 0%nat -> disposed s = true -> woken s = true) /\
+  (result s <> 0%nat -> queue s = []).
+
+Lemma app_nonnil_r {A} (l : list A) x : l ++ [x] <> [].
+Proof. destruct l; discriminate. Qed.
+
+Lemma step_wake_inv s a : wake_inv s -> wake_inv (fst (step s a)).
 Proof.
-  intros I. unfold step. destruct (result s) eqn:R; [|cbn [fst]; rewrite R; exact I].
+  intros [I1 [I2 I3]]. unfold step. destruct (result s) eqn:R; [|cbn [fst]; unfold wake_inv; rewrite R; auto].
+  specialize (I1 eq_refl). specialize (I2 eq_refl).
   destruct a as [id ok|id|b e| |].
-  - destruct ok; cbn; rewrite ?R; intros H; contradiction.
-  - destruct (memz id (vals s)); cbn; rewrite ?R; intros H; contradiction.
-  - set (s1 := if negb (res_err s) && e then _ else s).
-    assert (result s1 = 0%nat) as C by (unfold s1; destruct (negb (res_err s) && e); auto).
-    destruct (Bool.eqb b (idle s1)); cbn; rewrite ?C; intros H; contradiction.
-  - cbn. rewrite ?R. intros H; contradiction.
-  - destruct (idle s && res_err s); cbn; auto.
+  - destruct ok; cbn [negb fst]; [|unfold wake_inv; rewrite R; auto].
+    destruct (Nat.eqb _ 1); unfold wake_inv; cbn; rewrite ?R, ?app_nil_r;
+      (split; [|split]); auto; try (intros H; contradiction).
+  - destruct (memz id (vals s)); cbn [negb fst]; [|unfold wake_inv; rewrite R; auto].
+    destruct (Nat.eqb _ 0); unfold wake_inv; cbn; rewrite ?R, ?app_nil_r;
+      (split; [|split]); auto; try (intros H; contradiction).
+  - destruct (negb (res_err s) && e); cbn [idle]; destruct (Bool.eqb b (idle s));
+      unfold wake_inv; cbn; rewrite ?R; (split; [|split]); auto; try (intros H; contradiction).
+  - destruct (disposed s) eqn:D; cbn [fst]; unfold wake_inv; cbn; rewrite ?R, ?D;
+      (split; [|split]); auto; try (intros H; contradiction).
+  - destruct (woken s) eqn:W; cbn [negb fst]; [|unfold wake_inv; rewrite R, W; auto].
+    destruct (idle s && res_err s); unfold wake_inv; cbn.
+    + split; [discriminate|]. split; [discriminate|reflexivity].
+    + destruct (disposed s) eqn:D.
+      * split; [discriminate|]. split; [discriminate|reflexivity].
+      * split; [intros _ H; contradiction|]. split; [discriminate|intros H; contradiction].
 Qed.
 
-Lemma run_queue_inv l : forall s,
-  (result s <> 0%nat -> queue s = []) ->
-  (result (fst (run s l)) <> 0%nat -> queue (fst (run s l)) = []).
+Lemma run_wake_inv l : forall s, wake_inv s -> wake_inv (fst (run s l)).
 Proof.
   induction l as [|a l IH]; intros s I; cbn [run]; [exact I|].
-  pose proof (step_queue_inv s a I) as I1.
+  pose proof (step_wake_inv s a I) as I1.
   destruct (step s a) as [s1 o1]. cbn [fst] in I1. specialize (IH s1 I1).
   destruct (run s1 l) as [s2 o2]. exact IH.
 Qed.
 
-Lemma drain_empties s :
-  (result s <> 0%nat -> queue s = []) -> queue (fst (step s Drain)) = [].
-Proof.
-  intros I. unfold step. destruct (result s) eqn:R.
-  - destruct (idle s && res_err s); reflexivity.
-  - cbn. apply I. discriminate.
-Qed.
+Lemma init_wake_inv : wake_inv init.
+Proof. unfold wake_inv; cbn. repeat split; auto; try discriminate; intros; contradiction. Qed.
 
 Lemma run_app l1 l2 s :
   run s (l1 ++ l2) =
@@ -301,20 +314,107 @@ Proof.
     destruct (run s1 l1) as [s2 o2]. destruct (run s2 l2) as [s3 o3]. rewrite app_assoc. reflexivity.
 Qed.
 
-(* unless the call ended with the resolver error, everything reported up to a
-   send-loop iteration has been sent, in order *)
-Theorem all_reported_after_drain l :
-  let s' := fst (run init (l ++ [Drain])) in
-  result s' <> 1%nat -> sent s' = snd (run init (l ++ [Drain])).
+(* QUIESCENCE: whenever the send loop is parked on an open wait channel (woken = false) and
+   the call is still running, nothing is left queued: everything reported has been sent, in
+   order - for every callback history and every interleaving with the send loop, including
+   callbacks that arrive between a Drain region and the next (i.e. during strm.Send). *)
+Theorem quiescent_all_sent l :
+  let s' := fst (run init l) in
+  result s' = 0%nat -> woken s' = false ->
+  queue s' = [] /\ disposed s' = false /\ sent s' = snd (run init l).
 Proof.
-  intros s' R. destruct (sent_is_prefix_of_reports (l ++ [Drain])) as [t [H T]].
-  fold s' in H, T. specialize (T R). subst t. rewrite H.
-  assert (queue s' = []) as ->; [|rewrite app_nil_r; reflexivity].
-  unfold s'. rewrite run_app.
-  pose proof (run_queue_inv l init (fun H => eq_refl)) as I.
-  destruct (run init l) as [s1 o1]. cbn [fst] in I. cbn [run].
-  pose proof (drain_empties s1 I) as D.
-  destruct (step s1 Drain) as [s2 o2]. cbn [fst] in *. exact D.
+  intros s' R W. destruct (run_wake_inv l init init_wake_inv) as [I1 [I2 _]]. fold s' in I1, I2.
+  assert (queue s' = []) as Q.
+  { destruct (queue s') eqn:E; [reflexivity|]. rewrite I1 in W; [discriminate|exact R|discriminate]. }
+  split; [exact Q|]. split.
+  - destruct (disposed s') eqn:D; [|reflexivity]. rewrite I2 in W; [discriminate|exact R|reflexivity].
+  - destruct (sent_is_prefix_of_reports l) as [t [H T]]. fold s' in H, T.
+    rewrite T in H by (rewrite R; discriminate). rewrite Q, app_nil_r in H. symmetry; exact H.
+Qed.
+
+(* the state a reader of the reports believes is the actual state *)
+Lemma last_er_app d a b : last_er d (a ++ b) = last_er (last_er d a) b.
+Proof. revert d; induction a as [|[| |x] a IH]; intros d; cbn; auto. Qed.
+Lemma last_idle_app d a b : last_idle d (a ++ b) = last_idle (last_idle d a) b.
+Proof. revert d; induction a as [|[| |x] a IH]; intros d; cbn; auto. Qed.
+
+Lemma step_last_er s a :
+  NoDup (vals s) -> fresh_add s a ->
+  last_er (negb (isz s)) (snd (step s a)) = negb (isz (fst (step s a))).
+Proof.
+  intros ND FR. unfold step, isz. destruct (result s) eqn:R; [|reflexivity].
+  destruct a as [id ok|id|b e| |]; cbn [fresh_add] in FR.
+  - destruct ok; cbn [negb]; [|reflexivity].
+    apply memz_false in FR. rewrite FR. cbn [length fst snd enq set_vals vals].
+    destruct (vals s) as [|v0 vs]; cbn [length Nat.eqb last_er negb]; [reflexivity|].
+    destruct vs; reflexivity.
+  - destruct (memz id (vals s)) eqn:M; cbn [negb]; [|reflexivity].
+    apply memz_spec in M. pose proof (delz_length id _ ND M) as L.
+    cbn [fst snd enq set_vals vals].
+    destruct (length (delz id (vals s))) eqn:D; cbn [Nat.eqb last_er negb]; [reflexivity|].
+    rewrite <- L. reflexivity.
+  - set (s1 := if negb (res_err s) && e then _ else s).
+    assert (vals s1 = vals s) as V1 by (unfold s1; destruct (negb (res_err s) && e); auto).
+    destruct (Bool.eqb b (idle s1)); cbn [fst snd enq vals last_er]; rewrite V1; reflexivity.
+  - destruct (disposed s); reflexivity.
+  - destruct (negb (woken s)); [reflexivity|]. destruct (idle s && res_err s); reflexivity.
+Qed.
+
+Lemma run_last_er l : forall s,
+  NoDup (vals s) -> wf_hist s l ->
+  last_er (negb (isz s)) (snd (run s l)) = negb (isz (fst (run s l))).
+Proof.
+  induction l as [|a l IH]; intros s ND WF; cbn [run]; [reflexivity|].
+  destruct WF as [FR WF].
+  pose proof (step_last_er s a ND FR) as H1. pose proof (step_nodup s a ND FR) as ND1.
+  destruct (step s a) as [s1 o1]. cbn [fst snd] in *.
+  specialize (IH s1 ND1 WF). destruct (run s1 l) as [s2 o2]. cbn [fst snd] in *.
+  rewrite last_er_app, H1. exact IH.
+Qed.
+
+Lemma step_last_idle s a : last_idle (idle s) (snd (step s a)) = idle (fst (step s a)).
+Proof.
+  unfold step. destruct (result s); [|reflexivity].
+  destruct a as [id ok|id|b e| |].
+  - destruct ok; cbn [negb]; [|reflexivity]. cbn [fst snd enq set_vals idle]. destruct (Nat.eqb _ 1); reflexivity.
+  - destruct (memz id (vals s)); cbn [negb]; [|reflexivity]. cbn [fst snd enq set_vals idle]. destruct (Nat.eqb _ 0); reflexivity.
+  - set (s1 := if negb (res_err s) && e then _ else s).
+    assert (idle s1 = idle s) as I1 by (unfold s1; destruct (negb (res_err s) && e); auto).
+    destruct (Bool.eqb b (idle s1)) eqn:E; cbn [fst snd enq idle last_idle]; [|reflexivity].
+    apply eqb_prop in E. congruence.
+  - destruct (disposed s); reflexivity.
+  - destruct (negb (woken s)); [reflexivity|]. destruct (idle s && res_err s); reflexivity.
+Qed.
+
+Lemma run_last_idle l : forall s, last_idle (idle s) (snd (run s l)) = idle (fst (run s l)).
+Proof.
+  induction l as [|a l IH]; intros s; cbn [run]; [reflexivity|].
+  pose proof (step_last_idle s a) as H1. destruct (step s a) as [s1 o1]. cbn [fst snd] in *.
+  specialize (IH s1). destruct (run s1 l) as [s2 o2]. cbn [fst snd] in *.
+  rewrite last_idle_app, H1. exact IH.
+Qed.
+
+(* at quiescence the availability and idle state the remote side has been told equals the
+   actual one *)
+Theorem quiescent_reported_state l :
+  wf_hist init l ->
+  let s' := fst (run init l) in
+  result s' = 0%nat -> woken s' = false ->
+  last_er false (sent s') = negb (Nat.eqb (length (vals s')) 0) /\
+  last_idle false (sent s') = idle s'.
+Proof.
+  intros WF s' R W. destruct (quiescent_all_sent l R W) as [_ [_ S]]. fold s' in S. rewrite S.
+  split.
+  - apply (run_last_er l init (NoDup_nil _) WF).
+  - apply (run_last_idle l init).
+Qed.
+
+(* and a send-loop iteration always brings the call to quiescence or to its end *)
+Theorem drain_quiesces s : woken (fst (step s Drain)) = false \/ result (fst (step s Drain)) <> 0%nat.
+Proof.
+  unfold step. destruct (result s) eqn:R; [|right; cbn; rewrite R; discriminate].
+  destruct (woken s) eqn:W; cbn [negb]; [|left; exact W].
+  destruct (idle s && res_err s); left; reflexivity.
 Qed.
 
 (* ---- component id round trip ---- *)
